@@ -125,8 +125,8 @@ PROPS["C09"] = {
     # the model is a pure function of the op line and the explicit state: any op of these domains on
     # which the implementation differs from it is an unexplained dependence
     "all_ops": True,
-    "lean_modules": ["SMD.Properties.C09", "SMD.Spec.Facts", "SMD.Generated.MapRanges", "SMD.Properties.FindingWitnesses"],
-    "theorems": ["SMD.C09.all_map_ranges_covered"],
+    "lean_modules": ["SMD.Properties.C09", "SMD.Spec.Facts", "SMD.Generated.MapRanges", "SMD.Generated.PoolFacts", "SMD.Properties.FindingWitnesses"],
+    "theorems": ["SMD.C09.all_map_ranges_covered", "SMD.C09.pooled_walkers_reset"],
     "assumptions": ["partial: state left in pooled walkers and freelist reuse are runtime matters decided observationally by the repeat-call judges (every op repeated after unrelated, failing and conflicting calls and after GC); the theorem covers the iteration order of every Go map, against a table regenerated from the source on every run"],
     "explanation": "partial by proof",
 }
